@@ -558,6 +558,82 @@ def m_slice_get(I, st, call):
     return None
 
 
+def _elem_ref(I, st, s, ix_aff, elem_ty, mut=False):
+    """a reference to element ix of slice s: an integer element is the same kind of value an indexed read yields"""
+    I.nsym += 1
+    key = ("h", "elem*%d" % I.nsym)
+    eit = I.int_ty(elem_ty)
+    st.cells[key] = I.fresh_int(st, "elem", eit, info=("elem", s.base, s.off + ix_aff)) if eit is not None and s.base is not None else TopV(elem_ty)
+    return RefV(Place(key), mut)
+
+
+@model("core::slice::<impl [T]>::split_at", "core::slice::<impl [T]>::split_at_mut")
+def m_slice_split_at(I, st, call):
+    """(s[..mid], s[mid..]); panics when mid > len"""
+    s = as_slice(I, st, call.args[0], call.arg_tys[0])
+    mid = call.args[1]
+    if s is None or not isinstance(mid, IntV):
+        return None
+    ok = st.entails(s.len - mid.aff)
+    I.note("call:split_at", call.site, ok, None if ok else "mid %r not shown <= len %r" % (mid.aff, s.len),
+           definite=(not ok) and st.entails(mid.aff - s.len - 1))
+    st.add_fact(s.len - mid.aff)
+    if st.dead:
+        return []
+    return [(st, StructV([SliceV(mid.aff, s.base, s.off, s.mut), SliceV(s.len - mid.aff, s.base, s.off + mid.aff, s.mut)]))]
+
+
+@model("core::slice::<impl [T]>::split_at_checked", "core::slice::<impl [T]>::split_at_mut_checked")
+def m_slice_split_at_checked(I, st, call):
+    s = as_slice(I, st, call.args[0], call.arg_tys[0])
+    mid = call.args[1]
+    if s is None or not isinstance(mid, IntV):
+        return None
+    dt = call.dest_ty
+    out = []
+    s_no = st.copy()
+    s_no.add_fact(mid.aff - s.len - 1)
+    if not s_no.dead:
+        s_no.ghost[("inj", "checked-read-failed")] = "%s:%s" % (call.site.get("file"), call.site.get("line"))
+        out.append((s_no, mk_none(dt)))
+    st.add_fact(s.len - mid.aff)
+    if not st.dead:
+        out.append((st, mk_option(I, StructV([SliceV(mid.aff, s.base, s.off, s.mut), SliceV(s.len - mid.aff, s.base, s.off + mid.aff, s.mut)]), dt)))
+    return out
+
+
+@model("core::slice::<impl [T]>::split_first", "core::slice::<impl [T]>::split_last",
+       "core::slice::<impl [T]>::split_first_mut", "core::slice::<impl [T]>::split_last_mut",
+       "core::slice::<impl [T]>::first", "core::slice::<impl [T]>::last",
+       "core::slice::<impl [T]>::first_mut", "core::slice::<impl [T]>::last_mut")
+def m_slice_split_first(I, st, call):
+    """None for an empty slice, else the first / last element (and the rest)"""
+    s = as_slice(I, st, call.args[0], call.arg_tys[0])
+    if s is None:
+        return None
+    dt = call.dest_ty
+    it = dt[2][0] if dt and dt[0] == "adt" and dt[2] else None
+    out = []
+    s_no = st.copy()
+    s_no.add_eq(s.len, Aff.const(0))
+    if not s_no.dead:
+        s_no.ghost[("inj", "checked-read-failed")] = "%s:%s" % (call.site.get("file"), call.site.get("line"))
+        out.append((s_no, mk_none(dt)))
+    st.add_fact(s.len - 1)
+    if not st.dead:
+        last = "last" in call.name
+        mut = call.name.endswith("_mut")
+        if it is not None and it[0] == "tuple":
+            et = pointee(it[1][0])
+            e = _elem_ref(I, st, s, (s.len - 1) if last else Aff.const(0), et, mut)
+            rest = SliceV(s.len - 1, s.base, s.off if last else s.off + 1, s.mut)
+            out.append((st, mk_option(I, StructV([e, rest]), dt)))
+        else:
+            et = pointee(it) if it is not None else None
+            out.append((st, mk_option(I, _elem_ref(I, st, s, (s.len - 1) if last else Aff.const(0), et, mut), dt)))
+    return out
+
+
 @model("core::slice::<impl [T]>::len", "core::str::<impl str>::len")
 def m_slice_len(I, st, call):
     s = as_slice(I, st, call.args[0], call.arg_tys[0])
